@@ -215,7 +215,10 @@ func (b *baseActor) PostInboxScheme(c context.Context, w http.ResponseWriter, r 
 	if !ok {
 		return true, fmt.Errorf("activity streams value is not an Activity: %T", asValue)
 	}
-	if activity.GetJSONLDId() == nil {
+	if id := activity.GetJSONLDId(); id == nil || id.Get() == nil {
+		// No id, or an id that is not an IRI (null, a number, an empty
+		// string, ...): there is nothing usable to deduplicate, lock or
+		// store the activity by.
 		w.WriteHeader(http.StatusBadRequest)
 		return true, nil
 	}
